@@ -3,6 +3,7 @@
 package corerad
 
 import (
+	"fmt"
 	"context"
 	"errors"
 	"net"
@@ -36,6 +37,7 @@ const (
 // does Run return (with what), or is the interface re-dialled, how long does it take, and is
 // the old connection still used afterwards.
 func runGroup(t *testing.T, out *vfh.Out, monitor, unicastOnly bool, kind int, tf time.Duration) {
+	out.Pending(fmt.Sprintf("runGroup monitor=%v unicastOnly=%v fault=%d at=%v", monitor, unicastOnly, kind, tf))
 	synctest.Test(t, func(t *testing.T) {
 		st := &vfState{forwarding: true}
 		cfg := vfAdvConfig(200*time.Second, 600*time.Second, unicastOnly, 1800*time.Second)
@@ -204,6 +206,7 @@ func verifC10Group(t *testing.T, r *vfh.Rand, out *vfh.Out) {
 // solicitations arrives meanwhile. The task must still be torn down once the transmission in
 // flight has completed (F-17: with a bare `ipC <- ip` the listener blocks in its 17th send).
 func runGroupQ(t *testing.T, out *vfh.Out, unicastOnly, sys bool, tf, lat time.Duration, n int) {
+	out.Pending(fmt.Sprintf("runGroupQ unicastOnly=%v sys=%v at=%v inflight=%v burst=%d", unicastOnly, sys, tf, lat, n))
 	synctest.Test(t, func(t *testing.T) {
 		st := &vfState{forwarding: true}
 		cfg := vfAdvConfig(200*time.Second, 600*time.Second, unicastOnly, 1800*time.Second)
